@@ -357,7 +357,6 @@ theorem wan_new_tcp_map_full (rt : RouteIn → Int) (w : World) (s : Skb) (l2 : 
   by_cases hd : d.ob = OUTBOUND_DIRECT ∧ d.mark = 0
   · obtain ⟨h1, h2⟩ := hd
     simp [d, h1, h2] at h1 h2 ⊢
-    simp [h1, h2]
   · simp only [hd, if_false]
     have : (decide (d.ob = OUTBOUND_DIRECT) && d.mark == 0) = false := by
       cases hx : (decide (d.ob = OUTBOUND_DIRECT) && d.mark == 0)
